@@ -176,6 +176,42 @@ Unit64(ver, asz, tu) ==
         body == hdr \o dies
     IN <<P("escape_0xffffffff", Ones(4)), P("unit_length", U(Len(Cat(body)), 8))>> \o body
 
+(* -- EXPRESSION OPERANDS.  A minimal unit (32- or 64-bit format) whose only  *)
+(*    DIE carries DW_AT_location (exprloc, or block1 before version 4) with   *)
+(*    one operation per operand class:                                        *)
+(*      DW_OP_addr                 addr                                       *)
+(*      DW_OP_call_ref             secoffset (.debug_info), format-sized      *)
+(*      DW_OP_implicit_pointer     secoffset, format-sized (address-sized in  *)
+(*      DW_OP_GNU_implicit_pointer   version 2, read with read_address) + SLEB*)
+(*      DW_OP_GNU_variable_value   secoffset, format-sized                    *)
+(*      DW_OP_addrx                plain (ULEB index into .debug_addr)        *)
+(*      DW_OP_const_type           plain (ULEB unit offset, size, value)      *)
+(*      DW_OP_call4 / DW_OP_call2  plain (unit-relative offsets)              *)
+AbbrevExpr(ver) == <<1, 52, 0,   2, IF ver >= 4 THEN 24 ELSE 10,   0, 0,   0>>
+ExprUnit(ver, asz, fmt) ==
+    LET w    == IF fmt = 64 THEN 8 ELSE 4
+        ipw  == IF ver = 2 THEN asz ELSE w
+        hdr  == IF ver <= 4
+                THEN <<P("version", U(ver, 2)), F("debug_abbrev_offset", "secoffset", U(0, w), TRUE),
+                       P("address_size", <<asz>>)>>
+                ELSE <<P("version", U(5, 2)), P("unit_type", <<1>>), P("address_size", <<asz>>),
+                       F("debug_abbrev_offset", "secoffset", U(0, w), TRUE)>>
+        ops  == <<P("DW_OP_addr", <<3>>), F("op_addr", "addr", U(8192, asz), TRUE),
+                  P("DW_OP_call_ref", <<154>>), F("op_call_ref", "secoffset", U(11, w), TRUE),
+                  P("DW_OP_implicit_pointer", <<160>>), F("op_implicit_pointer", "secoffset", U(12, ipw), TRUE),
+                  P("implicit_pointer_byte_offset", <<2>>),
+                  P("DW_OP_GNU_implicit_pointer", <<242>>), F("op_GNU_implicit_pointer", "secoffset", U(13, ipw), TRUE),
+                  P("GNU_implicit_pointer_byte_offset", <<126>>),
+                  P("DW_OP_GNU_variable_value", <<253>>), F("op_GNU_variable_value", "secoffset", U(14, w), TRUE),
+                  P("DW_OP_addrx", <<161>>), P("op_addrx_index", <<5>>),
+                  P("DW_OP_const_type", <<164>>), P("op_const_type_operands", <<9, 1, 200>>),
+                  P("DW_OP_call4", <<153>>), P("op_call4", U(17, 4)),
+                  P("DW_OP_call2", <<152>>), P("op_call2", U(18, 2))>>
+        dies == <<P("abbrev1", <<1>>), P("loc_len", <<Len(Cat(ops))>>)>> \o ops
+        body == hdr \o dies
+    IN (IF fmt = 64 THEN <<P("escape_0xffffffff", Ones(4)), P("unit_length", U(Len(Cat(body)), 8))>>
+        ELSE <<P("unit_length", U(Len(Cat(body)), 4))>>) \o body
+
 (* -- .debug_line, version 4: NUL-terminated tables, DW_LNE_set_address -- *)
 LineProgram(asz) ==
     <<P("set_address_op", <<0, 1 + asz, 2>>), F("set_address", "addr", U(4096, asz), TRUE),
